@@ -127,6 +127,12 @@ def one_case(rng, quick):
                 # __del__ calls release() again on an already released lock: no sync point then
                 if self.is_locked and sched.me() is not sched.main and not sched.aborted:
                     sched.custom_sync("Release")
+                    r = orig_lock.release(self, force)
+                    # one more sync point after the release, so that whatever the code does
+                    # next (nothing, in update_image) can interleave with the next holder;
+                    # "Leave" steps are not part of the model and are dropped from the trace
+                    sched.custom_sync("Leave")
+                    return r
                 return orig_lock.release(self, force)
 
         def read_image(self, p, *a, **kw):
